@@ -30,6 +30,8 @@ def gen_cases(rng, tier):
     n = 3000 if tier == "quick" else 40000
     maxlen = 7 if tier == "quick" else 10
     cases = []
+    for k in range(n // 3):
+        cases.append(ckern_case(rng, maxlen))
     for k in range(n):
         x = rng.random()
         if x < 0.55:
@@ -81,16 +83,67 @@ def gen_cases(rng, tier):
     return cases
 
 
+def ckern_case(rng, maxlen):
+    """struct-level inputs for the four dtw_distance* kernels (any field value the struct can hold, psi within the
+    lengths): compared with the definitions regenerated from dd_dtw.c (Gen_cdist.v, oracle command ckern)"""
+    variant = rng.randint(0, 3)
+    nd = rng.choice([1, 2, 3]) if variant & 1 else 1
+    if rng.random() < 0.3:
+        r, c = dtwgen.focus_lengths(rng, max(5, maxlen))
+    else:
+        r, c = rng.randint(1, maxlen), rng.randint(1, maxlen)
+    m = max(r, c)
+    psi = [rng.choice([0, 0, rng.randint(0, r)]), rng.choice([0, 0, rng.randint(0, r)]),
+           rng.choice([0, 0, rng.randint(0, c)]), rng.choice([0, 0, rng.randint(0, c)])]
+    st = {"window": rng.choice([0, 0, 1, 1, 2, 3, rng.randint(1, m + 2)]), "max_dist": rng.choice([0, 0, 0, 1, 2, 3, 5, 9]),
+          "max_step": rng.choice([0, 0, 0, 1, 2, 3, 4]), "max_length_diff": rng.choice([0, 0, 0, 1, 2]),
+          "penalty": rng.choice([0, 0, 1, 2, 3]), "psi": psi, "use_pruning": rng.random() < 0.25,
+          "only_ub": rng.random() < 0.05, "inner_dist": 1 if (variant >= 2 or rng.random() < 0.1) else 0}
+    s1 = dtwgen.rand_series(rng, r, nd) if nd > 1 else [[v] for v in dtwgen.rand_series(rng, r, 1)]
+    s2 = dtwgen.rand_series(rng, c, nd) if nd > 1 else [[v] for v in dtwgen.rand_series(rng, c, 1)]
+    if nd > 1 and st["inner_dist"]:
+        # the integer model takes the integer square root of the squared norm: points that differ in one coordinate
+        # or lie on a line with a Pythagorean direction keep every vector norm an exact integer
+        from harness.props import C11
+        single = ([rng.randint(-2, 2) for _ in range(nd)], rng.randrange(nd))
+        if rng.random() < 0.5:
+            a, b = rng.choice(C11.PYTH)
+            direction = [0] * nd
+            i, j = rng.sample(range(nd), 2)
+            direction[i], direction[j] = a, b
+            single = ("line", [rng.randint(-2, 2) for _ in range(nd)], direction)
+        s1, s2 = C11.rand_nd(rng, r, nd, single), C11.rand_nd(rng, c, nd, single)
+    return {"site": "ckern", "variant": variant, "ndim": nd, "r": r, "c": c, "s1": s1, "s2": s2, "cst": st,
+            "settings": {"window": st["window"] or None, "psi": psi, "penalty": st["penalty"], "max_step": st["max_step"],
+                         "max_dist": st["max_dist"], "use_pruning": st["use_pruning"], "max_length_diff": st["max_length_diff"],
+                         "inner_dist": "euclidean" if st["inner_dist"] else "squared euclidean"}}
+
+
+def ckern_line(c):
+    st = c["cst"]
+    flat = lambda s: " ".join(str(int(v)) for p in s for v in p)
+    return "ckern %d %d %d %d %d %d %d %d %d %d %d %d %d %d %d %s %d %s" % (
+        c["variant"], st["window"], st["max_dist"], st["max_step"], st["max_length_diff"], st["penalty"],
+        st["psi"][0], st["psi"][1], st["psi"][2], st["psi"][3], int(st["use_pruning"]), int(st["only_ub"]),
+        st["inner_dist"], c["ndim"], len(c["s1"]), flat(c["s1"]), len(c["s2"]), flat(c["s2"]))
+
+
 def expected(cases, oracle):
     lines = []
     idx = []
+    kidx = [k for k, c in enumerate(cases) if c["site"] == "ckern"]
+    kans = oracle.query([ckern_line(cases[k]) for k in kidx])
     for k, c in enumerate(cases):
+        if c["site"] == "ckern":
+            continue
         if c["site"] == "matrix" or c.get("float_stream") or c.get("only_ub"):
             continue
         idx.append(k)
         lines.append(dtwgen.oracle_line("dtw", c))
     ans = oracle.query(lines)
     out = [{} for _ in cases]
+    for k, a in zip(kidx, kans):
+        out[k] = {"err": a} if a.startswith("ERR") else {"ckern": a}
     for k, a in zip(idx, ans):
         c = cases[k]
         if a.startswith("ERR"):
@@ -123,6 +176,22 @@ def impl_run(case):
             return {"v": f(*a, **k)}
         except Exception as exc:  # noqa
             return {"exc": type(exc).__name__, "msg": str(exc)[:200]}
+    if site == "ckern":
+        from harness import craw
+        L = craw.lib()
+        cs = case["cst"]
+        st = L.dtw_settings_default()
+        for f in ("window", "max_dist", "max_step", "max_length_diff", "penalty", "use_pruning", "only_ub", "inner_dist"):
+            setattr(st, f, cs[f])
+        st.psi_1b, st.psi_1e, st.psi_2b, st.psi_2e = cs["psi"]
+        a, b = craw.arr(case["s1"]), craw.arr(case["s2"])
+        name = ["dtw_distance", "dtw_distance_ndim", "dtw_distance_euclidean", "dtw_distance_ndim_euclidean"][case["variant"]]
+        import ctypes
+        if case["variant"] & 1:
+            v = getattr(L, name)(a, len(case["s1"]), b, len(case["s2"]), case["ndim"], ctypes.byref(st))
+        else:
+            v = getattr(L, name)(a, len(case["s1"]), b, len(case["s2"]), ctypes.byref(st))
+        return {"ckern": v}
     if site in ("pair", "pair_usec"):
         s1 = np.array(case["s1"], dtype=np.double)
         s2 = np.array(case["s2"], dtype=np.double)
@@ -182,6 +251,18 @@ def judge(case, got, exp):
     if "exc" in got:
         return {"kind": "harness-exception:" + got["exc"], "detail": got.get("msg")}
     g = got["ok"]
+    if case["site"] == "ckern":
+        # the kernel regenerated from dd_dtw.c, run on the same struct-level input
+        tag, val, okflag = exp["ckern"].split()
+        if okflag != "ok":
+            return {"kind": "ckern:model-reports-out-of-bounds-access", "model": exp["ckern"], "c": g["ckern"]}
+        v = math.inf if val == "inf" else int(val)
+        sq_variant = case["variant"] < 2 and not case["cst"]["inner_dist"]
+        if v != math.inf and (tag == "sqrt" or (sq_variant and case["cst"]["only_ub"])):
+            v = math.sqrt(v)
+        if not same(g["ckern"], float(v), 0):
+            return {"kind": "ckern:c-kernel-differs-from-regenerated-definition", "c": g["ckern"], "model": exp["ckern"]}
+        return None
     py, c = g["py"], g["c"]
     tol = 4 if case.get("float_stream") or case["settings"].get("use_pruning") else 0
     if "exc" in py and "exc" in c:
@@ -209,7 +290,7 @@ def nontrivial(case, exp):
 
 def case_key(case):
     return repr((case["site"], case["s1"], case["s2"], case.get("series"), sorted(case["settings"].items()),
-                 case.get("only_ub")))
+                 case.get("only_ub"), case.get("variant"), case.get("cst", {}).get("only_ub")))
 
 
 def case_size(case):
